@@ -5,6 +5,7 @@ package sym
 // the scheduler passes a baton.
 
 import (
+	"os"
 	"fmt"
 	"go/types"
 )
@@ -35,6 +36,8 @@ type scheduler struct {
 	err     any // panic value propagated out of a thread
 	timers  []*timer
 	timerBudget int
+	timed   bool  // virtual-time mode: timers with concrete durations fire in deadline order
+	vnow    int64 // virtual time elapsed (ns)
 	mainDone bool
 }
 
@@ -140,6 +143,16 @@ func (s *scheduler) run() (deadlock bool, blockedDesc string) {
 		for _, t := range s.threads {
 			if s.isRunnable(t) {
 				cands = append(cands, t)
+			}
+		}
+		if len(cands) == 0 && s.timed {
+			// virtual time: a thread waiting for quiescence continues before any
+			// time passes
+			for _, t := range s.threads {
+				if t.quiesce && t.state != tDone {
+					cands = append(cands, t)
+					break
+				}
 			}
 		}
 		if len(cands) == 0 {
@@ -457,6 +470,12 @@ type timer struct {
 	stopped bool
 	ticker  bool
 	fn      func() // AfterFunc
+	// timed mode (vpOpt "timed"): virtual deadline in ns and the period of a ticker;
+	// timed is false when the duration was not concrete (the timer then fires
+	// nondeterministically as in the untimed model)
+	timed    bool
+	deadline int64
+	period   int64
 }
 
 func (s *scheduler) newTimer(ticker bool, elem types.Type) *timer {
@@ -466,13 +485,29 @@ func (s *scheduler) newTimer(ticker bool, elem types.Type) *timer {
 	return t
 }
 
+// arm gives the timer a virtual deadline (timed mode only).
+func (s *scheduler) arm(t *timer, d value) {
+	if !s.timed {
+		return
+	}
+	if n, ok := d.(int64); ok {
+		t.timed, t.deadline, t.period = true, s.vnow+n, n
+	}
+}
+
 func (s *scheduler) canFire(t *timer) bool {
 	return !t.stopped && (!t.fired || t.ticker) && len(t.ch.buf) == 0 && s.timerBudget > 0
 }
 
 func (s *scheduler) fire(t *timer) {
+	if os.Getenv("GOSYM_DEBUG_TIMERS") != "" {
+		fmt.Fprintf(os.Stderr, "FIRE timer timed=%v deadline=%d vnow=%d ticker=%v waiters=%d\n", t.timed, t.deadline, s.vnow, t.ticker, len(t.ch.recvq))
+	}
 	s.timerBudget--
 	t.fired = true
+	if t.timed && t.ticker {
+		t.deadline += t.period
+	}
 	if t.fn != nil {
 		t.fn()
 		return
@@ -485,6 +520,13 @@ func (s *scheduler) fire(t *timer) {
 func (s *scheduler) maybeFireTimer(ch *channel) {
 	t := ch.timer
 	if t == nil || !s.canFire(t) {
+		return
+	}
+	if t.timed {
+		// virtual time only advances when every thread is blocked
+		if t.deadline <= s.vnow {
+			s.fire(t)
+		}
 		return
 	}
 	if s.p.choose(2, nil, "timer") == 1 {
@@ -502,6 +544,36 @@ func (s *scheduler) fireSomeTimer() bool {
 	}
 	if len(c) == 0 {
 		return false
+	}
+	if s.timed {
+		// discrete-event step: the earliest deadline among the timers somebody
+		// waits for is reached (untimed timers may fire at any moment)
+		var first []*timer
+		for _, t := range c {
+			if !t.timed {
+				first = append(first, t)
+			}
+		}
+		min := int64(-1)
+		for _, t := range c {
+			if t.timed && (min < 0 || t.deadline < min) {
+				min = t.deadline
+			}
+		}
+		for _, t := range c {
+			if t.timed && t.deadline == min {
+				first = append(first, t)
+			}
+		}
+		k := 0
+		if len(first) > 1 {
+			k = s.p.choose(len(first), nil, "timer-pick")
+		}
+		if first[k].timed && first[k].deadline > s.vnow {
+			s.vnow = first[k].deadline
+		}
+		s.fire(first[k])
+		return true
 	}
 	k := 0
 	if len(c) > 1 {
